@@ -81,6 +81,7 @@ type State struct {
 	iterMod   map[ssa.Value]Term
 	iterRef   map[ssa.Value]Term
 	mapTypes  map[string]mapInfo
+	actionLog []*Action
 	specIters []*specIter
 	lastIter  *specIter
 	path      []string
@@ -93,7 +94,7 @@ func NewState() *State {
 }
 
 func (s *State) Clone() *State {
-	n := &State{next: s.next, actions: s.actions, dead: s.dead, specIters: s.specIters[:len(s.specIters):len(s.specIters)], lastIter: s.lastIter}
+	n := &State{next: s.next, actions: s.actions, dead: s.dead, specIters: s.specIters[:len(s.specIters):len(s.specIters)], lastIter: s.lastIter, actionLog: s.actionLog[:len(s.actionLog):len(s.actionLog)]}
 	n.pc = append([]Term(nil), s.pc...)
 	n.path = append([]string(nil), s.path...)
 	n.cells = make(map[int]Val, len(s.cells))
